@@ -31,6 +31,9 @@ theorem hookStep_count (i : Nat) (s s' : List Frame) (e : Ev) (h : hookStep true
   cases e with
   | enter j a m c => simp only [hookStep, Option.some.injEq] at h; subst h; simp [isStart, isClose, openFrames]
   | raise j c => simp only [hookStep, Option.some.injEq] at h; subst h; simp [isStart, isClose]
+  | sctor d => simp only [hookStep, Option.some.injEq] at h; subst h; simp [isStart, isClose]
+  | ssucc d c o => simp only [hookStep, Option.some.injEq] at h; subst h; simp [isStart, isClose]
+  | sdtor d => simp only [hookStep, Option.some.injEq] at h; subst h; simp [isStart, isClose]
   | exit j r c =>
     cases s with
     | nil => simp [hookStep] at h
@@ -78,7 +81,7 @@ theorem hookStep_count (i : Nat) (s s' : List Frame) (e : Ev) (h : hookStep true
         (obtain ⟨rfl, rfl⟩ := h
          simp only [isStart, isClose, openFrames]
          (try split) <;> simp_all <;> omega)
-  | apply j b c =>
+  | apply j sd b c =>
     cases s with
     | nil => simp [hookStep] at h
     | cons f s0 =>
@@ -87,7 +90,7 @@ theorem hookStep_count (i : Nat) (s s' : List Frame) (e : Ev) (h : hookStep true
         (obtain ⟨rfl, rfl⟩ := h
          simp only [isStart, isClose, openFrames]
          (try split) <;> simp_all <;> omega)
-  | apply0 j c =>
+  | apply0 j sd c =>
     cases s with
     | nil => simp [hookStep] at h
     | cons f s0 =>
